@@ -35,7 +35,7 @@ ASSUMPTIONS = [
 ]
 
 KINDS = ["acm", "scm", "push-async", "push-sync", "push-cm", "push-scm", "callback-async", "callback-sync"]
-BEHAVIOURS = ["falsy", "truthy", "raise", "raise-if-exc", "reraise", "raise-base", "raise-chained"]
+BEHAVIOURS = ["falsy", "truthy", "raise", "raise-if-exc", "reraise", "raise-base", "raise-chained", "grumpy-result"]
 
 
 class New(Exception):
@@ -48,6 +48,16 @@ class NewBase(BaseException):
 
 class Block(Exception):
     pass
+
+
+class GrumpyResult:
+    """an exit result whose truth value cannot be determined (like an array)"""
+
+    def __init__(self, i):
+        self.i = i
+
+    def __bool__(self):
+        raise New(("bool", self.i))
 
 
 def role(exc, block_exc):
@@ -68,6 +78,10 @@ def behave(i, behaviour, received):
         return True
     if behaviour == "raise" or (behaviour == "raise-if-exc" and received is not None):
         raise New(i)
+    if behaviour == "grumpy-result":
+        # only while an exception is in flight: a with statement does not even look at the result of
+        # __exit__ after a normal block, whereas every ExitStack (contextlib's too) tests it always
+        return GrumpyResult(i) if received is not None else False
     if behaviour == "raise-base":
         raise NewBase(i)
     if behaviour == "raise-chained":
@@ -292,6 +306,7 @@ def histories(draw, tier):
     op = st.one_of(
         st.tuples(st.just("register"), st.sampled_from(KINDS), st.sampled_from(["falsy", "falsy", "truthy", "raise", "enter-fails", "raise-base"])),
         st.tuples(st.just("register"), st.sampled_from(KINDS), st.sampled_from(["falsy", "falsy", "truthy", "raise", "enter-fails", "raise-base"])),
+        st.tuples(st.just("register-registering"), st.sampled_from(["push-async", "push-sync", "callback-sync"])),
         st.tuples(st.just("aclose")),
         st.tuples(st.just("pop_all"), st.booleans()),
         st.tuples(st.just("leave"), st.booleans()),
@@ -305,6 +320,7 @@ def check_history(case):
     ran = []          # (exit id, stack index it ran on)
     owner = {}        # exit id -> index of the stack that currently owns it
     failed_enter = set()
+    registered_late = []
     unwinds = [0]
 
     async def history():
@@ -364,6 +380,7 @@ def check_history(case):
             running_on[0] = idx
             expected = sorted(e for e, o in owner.items() if o == idx)
             before = len(ran)
+            late_before = len(registered_late)
             try:
                 if with_exc:
                     exc = Block("leave")
@@ -379,6 +396,8 @@ def check_history(case):
             finally:
                 running_on[0] = None
             ran_now = sorted(e for e, _ in ran[before:])
+            # exits registered on THIS stack while it was unwinding run in the same unwind
+            expected = sorted(expected + [e for e in registered_late[late_before:] if owner.get(e) == idx])
             if ran_now != expected:
                 problems.append(("unwind-ran-wrong-exits", f"stack {idx}: ran {ran_now} expected {expected}"))
             for e in expected:
@@ -409,6 +428,34 @@ def check_history(case):
                     failed_enter.add(eid)
                     continue
                 owner[eid] = cur
+            elif name == "register-registering":
+                # an exit that, while the stack unwinds, registers one more callback on that same stack:
+                # the late-comer is the most recently registered exit and must run in the SAME unwind
+                eid, late = next_id, next_id + 1
+                next_id += 2
+                stack = stacks[cur]
+
+                def late_cb(late=late):
+                    ran.append((late, running_on[0]))
+
+                def registering(*exc, eid=eid, stack=stack, late_cb=late_cb, late=late, home=cur):
+                    ran.append((eid, running_on[0]))
+                    # registers on the stack object it was created for (which may have given this very
+                    # exit away through pop_all in the meantime)
+                    stack.callback(late_cb)
+                    owner[late] = home
+                    registered_late.append(late)
+                    return False
+
+                if op[1] == "push-async":
+                    async def aregistering(*exc, inner=registering):
+                        return inner(*exc)
+                    stack.push(aregistering)
+                elif op[1] == "push-sync":
+                    stack.push(registering)
+                else:
+                    stack.callback(registering)
+                owner[eid] = cur
             elif name == "aclose":
                 await unwind(cur, False)
             elif name == "leave":
@@ -424,11 +471,12 @@ def check_history(case):
             elif name == "switch":
                 cur = op[1] % len(stacks)
         # finally every stack is closed (twice: a completed unwind must not run anything again)
-        for idx in range(len(stacks)):
-            if problems:
-                break
-            await unwind(idx, False)
-            await unwind(idx, False)
+        for _round in range(3):  # an exit may register a late-comer on a stack that was closed already
+            for idx in range(len(stacks)):
+                if problems:
+                    break
+                await unwind(idx, False)
+                await unwind(idx, False)
         if problems:
             return problems[0]
         counts = {}
@@ -439,6 +487,8 @@ def check_history(case):
                 return ("failed-enter-was-exited", f"exit {e}")
         registered = [e for e in owner]
         bad = {e: counts.get(e, 0) for e in registered if counts.get(e, 0) != 1}
+        # (an exit registered late on a stack that is never unwound again would be owed at the very end;
+        #  the final double close of every stack above takes care of that)
         if bad:
             return ("exit-not-run-exactly-once", f"{bad}")
         return None
